@@ -41,12 +41,14 @@ func main() {
 		fs.Parse(os.Args[2:])
 		runtime.GOMAXPROCS(*procs)
 		o.RunWall = *runWall
+		sim.ExecWall = *runWall
 		os.Exit(sim.RunBatch(o))
 	case "replay":
 		if len(os.Args) < 3 {
 			fmt.Fprintln(os.Stderr, "usage: vsim replay FILE")
 			os.Exit(2)
 		}
+		sim.ExecWall = 300 * time.Second
 		os.Exit(sim.Replay(os.Args[2]))
 	case "one":
 		fs := flag.NewFlagSet("one", flag.ExitOnError)
